@@ -639,8 +639,10 @@ class Gen:
                 extra = [x for x in G.SPECIES_NAMES if x not in names]
                 add = rng.sample(extra, min(len(extra), rng.randint(1, 2)))
                 more[fld] = sorted(list(names) + add, key=G.SPECIES_NAMES.index)
-            return {'op': 'add', 'sess': sess.sid, 'traj': dict(last['spec']),
-                    'reuse': {'species': more, 'cs': rng.randint(1, 10 ** 6)}}
+            reuse = {'species': more, 'cs': rng.randint(1, 10 ** 6)}
+            if last['spec'].get('fid') is not None:
+                reuse['fid'] = self.next_id(gid)
+            return {'op': 'add', 'sess': sess.sid, 'traj': dict(last['spec']), 'reuse': reuse}
         spec = self.traj_spec(gid, first_of_file=len(rows) == 0, fs=list(fs), file=sess.file)
         if sess.kind == 'mem':
             if self.cfg['regime'] != 'pressure':
